@@ -13,7 +13,9 @@ Symbolic repository summary
                rev-list: by date, i.e. only "every commit after at least one of its children")
   u            one tagged commit that is *not* reachable from HEAD
   loc[t]       for every tag name t of the menu: absent (-1), on h_i (i), or on u (k)   -- solver variables
-  D            what `rev-list --count <tag>..HEAD` prints, ts_i / cts commit times, branch text, status text
+  distance     `rev-list --count <tag>..HEAD` = |ancestors(HEAD) minus ancestors(tagged commit)| computed from the shape
+               (also with --no-merges / --first-parent as git defines them); one family lets it be any u32 (parse only)
+  ts_i / cts   commit times, branch text, status text: solver variables
 The oracle is the statement: base tag = a highest-version valid tag of a validly tagged commit with no other validly
 tagged commit between it and HEAD (tags on u never count); none -> reported as "no tags"; every other fact is passed through exactly.
 Validity and version order of the (concrete) tag names come from my own patterns / comparators (flowlib)."""
@@ -137,11 +139,15 @@ class GitWorld:
             i = self.k if h == self.unreach else self.hashes.index(h)
             names = [t for t in sorted(self.tags) if w.branch(self.loc[t] == i)]
             return txt('\n'.join(names))
-        if argv[:2] == ['rev-list', '--count'] and len(argv) == 3 and argv[2].endswith('..HEAD'):
-            t = argv[2][:-len('..HEAD')]
-            if t not in self.tags or w.branch(self.loc[t] == -1):
+        if argv[:2] == ['rev-list', '--count'] and argv[-1].endswith('..HEAD') and all(a in ('--no-merges', '--first-parent') for a in argv[2:-1]):
+            t = argv[-1][:-len('..HEAD')]
+            i = self.where(t)
+            if i is None:
                 return None
-            return int_to_chars(I, self.dist)
+            flags = argv[2:-1]
+            if self.arg.get('dist_sym') and not flags:
+                return int_to_chars(I, self.dist)       # family with an arbitrary (large) count: parse / pass-through only
+            return txt(str(self.range_count(i, flags)))
         if argv == ['rev-parse', 'HEAD']:
             return txt(self.hashes[0])
         if argv[0] == 'rev-parse' and len(argv) in (2, 3) and (len(argv) == 2 or argv[1] in ('--verify', '-q', '--quiet')):
@@ -176,6 +182,35 @@ class GitWorld:
             i = self.where(argv[3])
             return None if i is None else txt(self.unreach if i == self.k else self.hashes[i])
         raise Unsupported('git sub-command without a stub: %r' % (argv,))
+
+    def ancestors_or_self(self, i):
+        if i == self.k:
+            return {self.k, max(self.par)}          # u is a child of the root
+        seen, todo = set(), [i]
+        while todo:
+            c = todo.pop()
+            if c not in seen:
+                seen.add(c)
+                todo += self.par[c]
+        return seen
+
+    def range_count(self, i, flags=()):
+        """|commits reachable from HEAD but not from the tagged commit c_i| as git counts it with the given flags"""
+        rng = self.ancestors_or_self(0) - self.ancestors_or_self(i)
+        if '--first-parent' in flags:
+            chain, c = [], 0
+            while True:
+                chain.append(c)
+                if not self.par[c]:
+                    break
+                c = self.par[c][0]
+            rng = {c for c in chain if c in rng}
+        if '--no-merges' in flags:
+            rng = {c for c in rng if len(self.par[c]) < 2}
+        return len(rng)
+
+    def true_distance(self, i):
+        return self.range_count(i)
 
     def listing(self):
         """the concrete listing order of this path (forks over the orders the contract allows)"""
@@ -338,7 +373,8 @@ def path(ctx, arg):
             bad.append('tag_facts_without_tag')
     else:
         i = wd.where(R)
-        if w.find(f('distance') != wd.dist) is not None:
+        want_dist = wd.dist if arg.get('dist_sym') else wd.true_distance(i)
+        if w.find(f('distance') != want_dist) is not None:
             bad.append('distance')
         tt, th = peel(f('tag_timestamp')), peel(f('tag_commit_hash'))
         if tt.variant != 1 or w.find(tt.fields[0] != wd.ts_of(i)) is not None:
@@ -372,7 +408,7 @@ def path(ctx, arg):
     g = lambda n: vars_.fields[c06.FIELDS.index(n)]
     bad = []
     i = wd.where(R)
-    if w.find(opt_mismatch(g('distance'), 1, wd.dist)) is not None:
+    if w.find(opt_mismatch(g('distance'), 1, want_dist)) is not None:
         bad.append('distance')
     dv = peel(g('dirty'))
     if dv.variant != 1 or ((w.find(dv.fields[0] != z3.BoolVal(want_dirty)) is not None) if not isinstance(dv.fields[0], bool) else dv.fields[0] != want_dirty):
@@ -451,6 +487,6 @@ def cases(tier):
     if not q:
         out.append(dict(name='five_tags', fmt='semver', commits=2, tags=['v1.0.0', 'v1.0.1', 'v1.0.1-rc.1', '1.0.1', 'stable'], branch=None, status_len=0))
         out.append(dict(name='five_tags', fmt='auto', commits=2, tags=['v1.0.0', '1.0.0.post1', '1.0.1a1', 'v1.0.1-alpha.1', 'v1'], branch=None, status_len=0))
-    out.append(dict(name='branch_text', fmt='semver', commits=1, tags=['v1.0.0'], branch=list('f/') + ['PATH', 'PATH'], status_len=1, dist_max=4294967295))
+    out.append(dict(name='branch_text', fmt='semver', commits=1, tags=['v1.0.0'], branch=list('f/') + ['PATH', 'PATH'], status_len=1, dist_max=4294967295, dist_sym=True))
     out.append(dict(name='detached', fmt='semver', commits=1, tags=['v1.0.0'], branch=[], status_len=0))
     return out
